@@ -115,6 +115,55 @@ func C02(c *fw.Ctx) {
 			equalityLaws(c, x, y)
 		}
 	}
+	// numeric-looking strings as operands: whether they are coerced is not specified, but if the
+	// operation does not fail it must behave exactly as with the number the string spells
+	// (in particular a zero divisor stays an error)
+	numStrs := []struct {
+		s string
+		v float64
+	}{{"0", 0}, {"০", 0}, {"12", 12}, {"১২", 12}, {"-3", -3}, {"0.5", 0.5}, {"০.০", 0}, {"-0", math.Copysign(0, -1)}, {"64", 64}, {"1e3", 1000}, {"007", 7}}
+	partners := []float64{0, 1, 7, -2, 0.5, 64}
+	for _, op := range []string{"-", "*", "/", "%", "**", "<", "<=", ">", ">=", "&", "|", "^", "<<", ">>"} {
+		for _, ns := range numStrs {
+			for _, pv := range partners {
+				for side := 0; side < 2; side++ {
+					if !c.Mine() {
+						continue
+					}
+					lit := func(f float64) *model.N {
+						if f < 0 || math.Signbit(f) {
+							return model.Grp(model.Un("-", model.Num(-f)))
+						}
+						return model.Num(f)
+					}
+					var es, en *model.N
+					if side == 0 {
+						es, en = model.Bin(op, lit(pv), model.Str(ns.s)), model.Bin(op, lit(pv), lit(ns.v))
+					} else {
+						es, en = model.Bin(op, model.Str(ns.s), lit(pv)), model.Bin(op, lit(ns.v), lit(pv))
+					}
+					ps := model.Render(parenAll([]*model.N{model.Print(es), T("after")}))
+					pn := model.Render(parenAll([]*model.N{model.Print(en), T("after")}))
+					os, on := h.RunFile(ps, h.Opts{}), h.RunFile(pn, h.Opts{})
+					c.Eval(ps, true)
+					base := fw.Replay{Mode: "file", Program: ps, Related: []string{pn}, CLI: true, InStdout: os.Stdout, InStderr: os.Stderr, InStatus: os.Status}
+					if abnormal(c, os, "file", ps, base) || abnormal(c, on, "file", pn, base) {
+						continue
+					}
+					failed := os.Status == 70 && os.Stderr != "" && os.Stdout == ""
+					same := os.Stdout == on.Stdout && os.Status == on.Status && (os.Stderr == "") == (on.Stderr == "")
+					if !failed && !same {
+						r := base
+						r.Sig = "C02|numeric-string-operand|" + op
+						r.What = "an operator applied to a numeric-looking string must either fail or behave as with the number it spells"
+						r.Expected = fmt.Sprintf("a runtime error, or as the number: stdout %q status %d", on.Stdout, on.Status)
+						r.Observed = fmt.Sprintf("stdout %q status %d stderr %q", os.Stdout, os.Status, trunc(os.Stderr, 100))
+						c.Violate(r)
+					}
+				}
+			}
+		}
+	}
 	// depth-2 compositions
 	sub := []operand{}
 	for _, n := range []string{"1", "3", "0.5", "-1", `"a"`, "7&3", "64", "0"} {
